@@ -88,6 +88,22 @@ T1_Planar == LET m == APlanar24(poly) IN
                /\ m.iy = DMom24(tris, 1, 1)
                /\ m.ixy = DMom24(tris, 1, 2)
 
+\* polytri's ear clipping as coded terminates on every simple polygon and every relabelling (a valid shape does not become
+\* an error), and what it returns tiles the polygon: its triangles run the way the cycle runs and integrate to the same
+\* area, first and second moments as the growth triangulation
+TriOK(r) == LET T == {r.tris[k] : k \in 1..Len(r.tris)}
+                P == {IF Sg = 1 THEN t ELSE <<t[1], t[3], t[2]>> : t \in T} IN
+    /\ r.ok
+    /\ Len(r.tris) = Len(poly) - 2 /\ Cardinality(T) = Len(poly) - 2
+    /\ \A t \in T : Sg * TriDet(t) > 0
+    /\ DArea2(P) = DArea2(tris)
+    /\ DCnum(P) = DCnum(tris)
+    /\ \A k, l \in 1..2 : DMom24(P, k, l) = DMom24(tris, k, l)
+T1_Triangulate == TriOK(ATriangulate(poly))
+\* non-vacuity: the wrong variant of the loop must NOT satisfy the theorem everywhere (checked as an invariant that TLC
+\* is expected to violate on the named polygons)
+Canary_WrongTriangulate == TriOK(WrongTriLoop(poly, 0, ANewellZ(poly), <<>>))
+
 \* query points: the half-lattice of the bounding box enlarged by one half-step; doubled frame
 QPts == (-1..2 * G + 1) \X (-1..2 * G + 1)
 Dbl(s) == [i \in 1..Len(s) |-> <<2 * s[i][1], 2 * s[i][2]>>]
